@@ -14,9 +14,17 @@ CLAIMED = {
  "C08": ("every completion order of <= 5 gated resolvers / argument hooks x 9 engine configurations x 5 gate layouts (failing non-null leaves, non-null list items): response equals the FIFO/default response, all started work finished, nothing started twice", E1 + " over a scheduler model (MiniLoop) with solver-chosen completion order"),
  "C09": ("4 mutation documents x every completion order of <= 4 gated nested resolvers x 7 failure placements x 2 configurations: serial start/finish log, document-order keys, nullable/non-null root failure semantics", E1 + " over a scheduler model (MiniLoop)"),
  "C10": ("E2: the scalar kernels' current source translated to SMT per input kind; laws discharged as unsat over ALL ints (z3 Int) / ALL binary64 floats (FP 11 53): range, integrality, finiteness, kind tables, literal == variable, idempotence; E1: echo through the engine", "Python-AST -> SMT translation of the real scalar functions (z3 Int/FP queries, unsat = law holds for all values) + CrossHair echo obligations"),
+ "C11": ("8 SDL models (every kind, wrappers to depth 3, defaults of every literal kind, extensions, custom root names, directives, deprecation, hidden fields, implementers declared before/after their interface) in up to 3 declaration orders x 4 ways of supplying the SDL: the standard introspection query equals the expected introspection computed by an independent SDL reader; __type(name:) for every string; schema-level @nonIntrospectable", E1 + " (independent SDL reader + expected introspection)"),
+ "C12": ("95 rule-breaking SDL texts + wrapper-bit generators for interface conformance (field types 8x8x6, argument types 8x8, extra arguments): create_engine raises for every SDL that breaks a checked rule; builds run concretely after the selectors are resolved by the symbolic executor", "bounded enumeration of a violation catalogue driven by the symbolic executor (CrossHair selectors, concrete engine builds)"),
+ "C13": ("6 decorated schemas (0..3 directives per element, repeated instances) x 4 query-side layouts x 3 supply modes: the value and query-side directive arguments are unbounded ints; result == expected composition polynomial (hooks are non-commuting affine maps), hook log == expected sequence", E1 + " (composition polynomial oracle)"),
+ "C14": ("6 subscription documents x event lists of length <= 3 over unbounded ints/None x gated source/consumer: one response per event in order, each equal to executing the payload, source started once with coerced arguments; invalid requests yield one errors-only response without starting the source", E1 + " over MiniLoop"),
+ "C15": ("2-3 requests in flight on one engine (5 documents, per-request int/Boolean variables, faults), every completion order of the gated resolvers across requests: each response == its solo response; a later probe == a never-shared uncached engine", E1 + " over MiniLoop with solver-chosen interleaving"),
+ "C16": ("request sequences of length 3 (every prefix checked) over 9 documents x str/bytes x unbounded int variables x 4 cache configurations (real lru_cache(512), lru_cache(1), dict decorator, none): position by position equal to an uncached engine", E1 + " (differential against an uncached engine)"),
+ "C17": ("3 bundles with identical type/field names, every subset x registration order x cooking order (48 scenarios): each co-resident engine answers 6 requests + 1 subscription like an oracle validated against the bundle built alone in a fresh process; registry bake/lookup with a symbolic schema name (all strings)", E1 + " (symbolic schema name; oracle validated in a fresh process)"),
+ "C18": ("operation_name: every string against 5 document shapes (GetOperation); arbitrary parser error string; 17 texts x str/bytes x operation names: never raises, well-formed response, locations inside the text; custom error coercer awaited once per error", E1 + " (well-formedness predicate, GetOperation reference)"),
 }
 NA = {}
-TODO = ["C11", "C12", "C13", "C14", "C15", "C16", "C17", "C18"]
+TODO = []
 def main():
     import importlib.util
     claimed = {k: v for k, v in CLAIMED.items() if os.path.exists(os.path.join(ROOT, "harness", k + ".py"))}
